@@ -43,8 +43,8 @@ KERNELS = ("kamb_count", "schmidt_count", "exponential_kamb", "linear_inverse_ka
 # (kernel, axial, gridsteps, number of data)
 DENSITY_SIZES = ([(k, a, 2, n) for k in (0, 1, 2) for a in (True, False) for n in (1, 2)]
                  + [(k, True, 3, 1) for k in (0, 1, 2)]
-                 + [(k, a, 2, 1) for k in (3, 4) for a in (True, False)]
-                 + [(k, True, 2, 2) for k in (3, 4)])
+                 + [(k, a, 2, 1) for k in (3, 4) for a in (True, False)])
+# (the filtering kernels 3, 4 fork once per (counter, datum): g = 2, n = 2 has 256 paths per definition -- left out)
 POLES_BATCH = (("xz", 2), ("xz", 3), ("yx", 2))
 
 
@@ -473,6 +473,10 @@ def translations():
             mod.__dict__[key] = v
         with literal_arithmetic():
             for nm in names:
+                if nm.startswith("point_density"):
+                    tr.ensure(nm, {})
+        for nm in names:                      # poles: the shared simplifications, as in Gen_geometry.k_poles_<ab>
+            if not nm.startswith("point_density"):
                 tr.ensure(nm, {})
     finally:
         for mod, key, v in saved:
